@@ -15,6 +15,7 @@ import (
 	"sort"
 	"strings"
 	"sync"
+	"sync/atomic"
 	"syscall"
 	"testing"
 	"time"
@@ -238,7 +239,8 @@ var recKill = ev.New("C20", "kill-during-save-loop",
 	"a child process runs an endless loop of acknowledged changes (add/update/delete walk over 6 names on top of 0..300 padding users), "+
 		"each followed by its debounce save on a fake clock, journaling intent/ack/save-due lines write-ahead; the parent SIGKILLs it after a "+
 		"random 0-60 ms; the store file must then be one complete document equal to a journaled state not older than the last save known "+
-		"complete, and a fresh server must start on it. Non-trivial: at least one save had completed and another change was in flight at the kill").
+		"complete, and a fresh server must start on it; then a SECOND LIFETIME on the same directory (with whatever the killed process "+
+		"left next to the store): restart, one more acknowledged change, graceful stop - the store must hold it. Non-trivial: at least one save had completed and another change was in flight at the kill").
 	Require("kill-judged")
 
 type journalLine struct {
@@ -364,7 +366,64 @@ func killTrial(i int, rng *rand.Rand, base string) (violation string, nontrivial
 		return fmt.Sprintf("SIG=C20/kill-leaves-stale-or-foreign-store after SIGKILL the store holds %d users, which is none of the states #%d..#%d (last save known complete: #%d)",
 			len(got), lastS, lastI, lastS), false, ""
 	}
-	return "", lastS >= 0 && lastI > lastS, fmt.Sprintf("pad/%d loc/%s", pad, loc)
+	// second lifetime on the same directory, with whatever the killed process left behind
+	label = fmt.Sprintf("pad/%d loc/%s", pad, loc)
+	strays := strayFiles(string(storePath))
+	if len(strays) > 0 {
+		label += " stray-files-left-by-the-kill"
+	}
+	if v := secondLifetime(string(storePath), kl, stores, got, fmt.Sprintf("after SIGKILL %v into the save loop (location class %s)", delay, loc)); v != "" {
+		return v, false, ""
+	}
+	return "", lastS >= 0 && lastI > lastS, label
+}
+
+const sigSecondLife = "saves-fail-in-the-next-lifetime"
+
+// strayFiles lists what else is in the store's directory (names only).
+func strayFiles(storePath string) []string {
+	var out []string
+	base := filepath.Base(storePath)
+	if ents, err := os.ReadDir(filepath.Dir(storePath)); err == nil {
+		for _, e := range ents {
+			if e.Name() != base && !e.IsDir() {
+				out = append(out, e.Name())
+			}
+		}
+	}
+	return out
+}
+
+// secondLifetime restarts a server on the store as it was left (including stray files next to
+// it), acknowledges one more change and stops gracefully: the store must then hold it.
+func secondLifetime(storePath string, kl int, stores credx.Mode, current map[string][]byte, how string) string {
+	before := strayFiles(storePath)
+	var saveErrs atomic.Int64
+	rig, err := credx.NewRig(storePath, kl, stores, countingLogger(&saveErrs))
+	if err != nil {
+		return fmt.Sprintf("SIG=C20/%s %s: the restarted server refuses the store: %v", sigSecondLife, how, err)
+	}
+	ctx, cancel := context.WithCancel(context.Background())
+	rig.Start(ctx)
+	key := credx.Key(kl, 900)
+	code, body := rig.Add("second-life", key)
+	cancel()
+	rig.Stop()
+	if code < 200 || code > 299 {
+		return fmt.Sprintf("HARNESS second lifetime: add -> %d %s", code, body)
+	}
+	want := map[string][]byte{"second-life": key}
+	for n, k := range current {
+		want[n] = k
+	}
+	b, _ := os.ReadFile(storePath)
+	got, complete, derr := credx.DecodeStore(b, kl)
+	if derr != nil || !complete || !credx.SameUsers(got, want) {
+		_, has := got["second-life"]
+		return fmt.Sprintf("SIG=C20/%s %s: restart on the same directory (files next to the store: %v), POST users {second-life} -> %d, graceful stop; the store holds %d users (second-life on disk: %v, decode error %v), acknowledged set has %d; save errors logged: %d; files now: %v",
+			sigSecondLife, how, before, code, len(got), has, derr, len(want), saveErrs.Load(), strayFiles(storePath))
+	}
+	return ""
 }
 
 func TestKillDuringSaves(t *testing.T) {
@@ -393,6 +452,10 @@ func TestKillDuringSaves(t *testing.T) {
 				return
 			}
 			if v != "" {
+				if strings.Contains(v, sigSecondLife) && isKnown(sigSecondLife) {
+					recKill.KnownHit(listedSig(sigSecondLife))
+					return
+				}
 				if strings.Contains(v, "kill-leaves-unloadable-store") && isKnown(sigPartial) {
 					recKill.KnownHit(listedSig(sigPartial))
 					return
